@@ -7,7 +7,7 @@ MODULE = "Poupool.Properties.C12"
 
 def run(chk):
     ac.run_actor_property(chk, MODULE, THEOREMS, monitor_pids=["C12"], extra=globals().get("extra"))
-    ac.dispatch_facts(chk, ['C14_fact_methods', 'C14_fact_modes', 'C14_fact_cover_position', 'C14_fact_speed_standby'])
+    ac.dispatch_facts(chk, ['C14_fact_routing', 'C14_fact_modes', 'C14_fact_cover_position', 'C14_fact_speed_standby'])
     refused_request_monitor(chk)
 
 
